@@ -111,3 +111,12 @@ Theorem C12_source_bits_public : forall b, bv_inv b ->
             (i <= len (bv_abs b) -> g_bvit_len (bv_nbits b) i = Val (len (bv_abs b) - i)).
 Proof. exact g_bv_iter_public. Qed.
 Print Assumptions C12_source_bits_public.
+
+(* the owning bit iterator BitVectorIntoIter::next / len regenerated (KF-era fix included: len no longer underflows) *)
+From QwtModel Require Import FnsBvIntoOk.
+Theorem C12_source_bits_into : forall b i, bv_inv b ->
+  g_bvinto_next (chunks 8 (bv_words b)) (bv_nbits b) (bv_nones b) i
+  = Val (chunks 8 (bv_words b), bv_nbits b, bv_nones b, (if i <? len (bv_abs b) then i + 1 else i), nthN (bv_abs b) i) /\
+  (i <= len (bv_abs b) -> g_bvinto_len (bv_nbits b) i = Val (len (bv_abs b) - i)).
+Proof. exact g_bvinto_correct. Qed.
+Print Assumptions C12_source_bits_into.
